@@ -1989,7 +1989,12 @@ func ExecOrderBy(query *Query, current []any) ([]any, error) {
 func (query *Query) exec() (result any, err error) {
 	defer func() {
 		if r := recover(); r != nil {
-			err = r.(error)
+			// (a function may panic with any value, not only with an error)
+			if failure, ok := r.(error); ok {
+				err = failure
+				return
+			}
+			err = recovered(r)
 		}
 	}()
 	query.singletonMut.Lock()
